@@ -88,6 +88,10 @@ def run(chk):
     if chk.tier == "thorough":
         regen.run(chk, files_of_interest=["x86instdb.cpp", "x86instdb_p.h", "x86globals.h"])
 
+    from lib import sentinel, opkind
+    sentinel.run_units(chk, ("x86",))
+    opkind.run(chk, emit, floor=30)
+
     return chk.finish(
         level="other", exhaustive=False,
         explanation=("Table, database and dispatch rules over the x86 backend of /repo's current source: every entry of the encoder's "
